@@ -6,6 +6,7 @@
    depend on the shape of the control flow on the source side: a rewrite of the Go code that keeps every floating-point
    operation and its operands (helpers extracted, branches merged or split, early returns, switches) still checks. -/
 import CvssVerif.Generated.Formulas
+import CvssVerif.Proofs.F64Round
 
 namespace CvssVerif.FormulaTie
 open CvssVerif CvssVerif.F64
@@ -18,13 +19,17 @@ theorem cbv_eq {α : Type} (n : Nat) (k : Nat → α) : cbv n k = k n := by
     contradiction between the branch conditions -/
 macro "tie_leaves" : tactic => `(tactic|
   (try simp only [cbv_eq, decide_eq_true_eq]
+   -- binary64 multiplication and addition are commutative bit for bit (Proofs/F64Round.lean): `6.42 * x` for `x * 6.42` is no change
+   try simp only [F64.mul_comm', F64.add_comm']
    try simp only [V3.c642, V3.c752, V3.c0029, V3.c325, V3.c002, V3.c822, V3.c108, V3.c0915, V3.c09731,
      V2.c1041, V2.c20, V2.c1176, V2.c06, V2.c04, V2.c15,
      F64.one, F64.ten, F64.hundred, F64.c1e4, F64.c1e5, F64.four, F64.seven, F64.nine, F64.zero]
    repeat' split
    all_goals first
      | rfl
+     | (simp only [F64.mul_comm', F64.add_comm']; done)
      | (simp_all; done)
+     | (simp_all only [F64.mul_comm', F64.add_comm']; done)
      | (simp_all <;> rfl)))
 
 /-! ### v3 -/
